@@ -86,6 +86,14 @@ Theorem C15_static_reads_stable :
     static_reads g h None d n = repeat (link_deliver g h d) n.
 Proof. intros A. exact (@static_reads_stable A). Qed.
 
+(** Living grid objects: for every list of grids and every script of comparisons
+    (compatible_with, ==, get_transform_to between any two objects, the same partner repeatedly),
+    data_location changes and copies, each answer is the pure function of the two objects' CURRENT
+    records (to which C15_compatible_iff applies), whatever was asked or set before. *)
+Theorem C15_compat_current :
+  forall (st : list grid) (ops : list gop), Forall answer_ok (gtrace st ops).
+Proof. intros st ops. apply compat_current. Qed.
+
 (** ** Non-vacuity: a 3x4 point grid in F layout and the same locations reversed / y decreasing *)
 Definition ex_axes : list (list Q) := [[0#1; 1#1; 3#1]; [5#1; 7#1; 8#1; 12#1]]%Q.
 Definition ex_g : grid := mkgrid ex_axes [true; true] false false true 0 false.
@@ -138,6 +146,14 @@ Example C15_static_reads_stable_nonvacuous :
   repeat [30; 31; 32; 20; 21; 22; 10; 11; 12; 0; 1; 2]%Z 3.
 Proof. vm_compute. reflexivity. Qed.
 
+(** compare, switch the location of a copy / of the object, compare with the same partner again *)
+Example C15_compat_current_nonvacuous :
+  map (fun x => snd x) (gtrace [ex_g; ex_h] [GCompat 0 1; GCopy 0; GSet 2 false; GCompat 2 1; GCompat 1 2;
+                                             GSet 1 false; GCompat 2 1; GTrans 0 1; GEq 2 2]) =
+  [GB true; GCopied; GSetR true; GB false; GB false; GSetR true; GB true; GT TErr; GB true].
+Proof. vm_compute. reflexivity. Qed.
+
+Print Assumptions C15_compat_current.
 Print Assumptions C15_static_reads_stable.
 Print Assumptions C15_link_transform.
 Print Assumptions C15_link_locations.
